@@ -137,9 +137,34 @@ def validate_runs(ctx, prop, runs, what):
     violation; a rejection for another property's clause is reported and the run is not counted."""
     todo = [r for r in runs if r.get("trace") and not r.get("inconclusive")]
 
+    # event kinds whose NsqdAbs actions are pure guards (UNCHANGED vars): a rejection there for ANOTHER property's clause
+    # need not end the examination of this run -- the guard is relaxed and the rest of the trace is judged
+    PURE = {"DefStart", "ScanIF", "ScanDef", "ReqClamp"}
+
     def one(r):
-        res = ctx.tlc("NsqdAbsTrace", "NsqdAbsTrace.cfg", workers=1, timeout=900, jvm=["-Xss512m"],
-                      files={r["trace"]: "trace.ndjson"}, label="trace:" + what, private=True, record=False)
+        relax = []
+        while True:
+            cfg = "NsqdAbsTrace.cfg"
+            if relax:
+                cfg = "NsqdAbsTrace_relax_%s.cfg" % "_".join(sorted(relax))
+                cp = os.path.join(ctx.specdir, cfg)
+                if not os.path.exists(cp):
+                    with open(cp, "w") as f:
+                        f.write("SPECIFICATION TraceSpec\nCONSTANT Relax = {%s}\nCONSTRAINT HW\nPOSTCONDITION TraceAccepted\nCHECK_DEADLOCK FALSE\n"
+                                % ", ".join('"%s"' % e for e in sorted(relax)))
+            res = ctx.tlc("NsqdAbsTrace", cfg, workers=1, timeout=900, jvm=["-Xss512m"],
+                          files={r["trace"]: "trace.ndjson"}, label="trace:" + what, private=True, record=False)
+            if (res.ok and "TRACE_OK" in res.out) or (res.crashed and not res.postcondition_false):
+                break
+            m = re.search(r'<<\s*"TRACE_REJECTED".*?(?=\nError|\Z)', res.out, re.S)
+            ev, cls = classify(m.group(0)[:2500] if m else res.out[-2500:])
+            if prop in cls.split("+") or ev not in PURE or ev in relax or len(relax) >= 3:
+                break
+            print("OTHER-PROPERTY: this run breaks a clause of %s (event %s), not of %s; that guard is set aside and the "
+                  "rest of the run examined" % (cls, ev, prop), flush=True)
+            ctx.notes.setdefault("other_property_rejections", []).append({"class": cls, "event": ev, "scenario": r["scenario"],
+                                                                           "relaxed": True})
+            relax.append(ev)
         return r, res
 
     accepted = 0
